@@ -212,7 +212,7 @@ struct Machine {
 
   // normalisation: src_kind 0 = ZNX (vec_znx_normalize_base2k), 1 = BIG, 2 = BIG range
   bool op_normalize(int src_kind, int src) {
-    const unsigned kk = 1 + (unsigned)ch.below(62);
+    unsigned kk = 1 + (unsigned)ch.below(62);
     std::vector<Poly> limbs;
     uint64_t begin = 0, step = 1, xend = 0;
     int flags;
@@ -229,7 +229,15 @@ struct Machine {
     }
     if (linf(limbs) > 4611686018427387904.0L) return false;  // |a_i| <= 2^62
     const uint64_t as = limbs.size();
-    uint64_t rs = ch.below(5);
+    // half of the time pick the base relative to the magnitude of the data (k ~ bits/d, d=1..4) so that carries really travel
+    // across several limbs -- the realistic use: 40..50-bit big coefficients normalised to k = 10..20
+    if (ch.below(2)) {
+      long double li = linf(limbs);
+      unsigned bits = li >= 1 ? (unsigned)floorl(log2l(li)) + 1 : 1;
+      kk = std::max(1u, std::min(62u, bits / (1 + (unsigned)ch.below(4))));
+    }
+    // and half of the time keep only the most significant limb(s): the dropped low limbs must still propagate their carry
+    uint64_t rs = ch.below(2) ? ch.below(2) + (as > 3 ? 0 : 0) : ch.below(5);
     const bool inplace = src_kind == 0 && ch.below(4) == 0;
     int ri;
     if (inplace) { ri = src; rs = std::min(rs, Z[src].size); }
@@ -261,7 +269,7 @@ struct Machine {
   }
   bool op_dft(int a) {
     if (!dftable(Z[a].v)) return false;
-    uint64_t rs = ch.below(5);
+    uint64_t rs = ch.below(2) ? Z[a].size : ch.below(5);
     int di = new_d(rs, Z[a].flags | F_DFT);
     for (uint64_t i = 0; i < rs; ++i) D[di].v[i] = zlimb(Z[a].v, i);
     vec_znx_dft(mod, (VEC_ZNX_DFT*)D[di].p, rs, Z[a].p, Z[a].size, Z[a].sl);
@@ -270,7 +278,7 @@ struct Machine {
   }
   bool op_idft(int d, bool tmp_a) {
     if (!D[d].valid) return false;
-    uint64_t rs = ch.below(5);
+    uint64_t rs = ch.below(2) ? D[d].size : ch.below(5);
     int bi = new_b(rs, D[d].flags | F_IDFT);
     for (uint64_t i = 0; i < rs; ++i) B[bi].v[i] = zlimb(D[d].v, i);
     if (tmp_a) {
